@@ -302,8 +302,8 @@ class C14(Engine):
 		run = {'op': 'run'}
 		for which in (0, 1):
 			pool = pools.fixed_pool(which)
-			leaf = pool['modules'][-1]
-			top = pool['modules'][0]
+			leaf = pools.core(pool)[-1]
+			top = pools.core(pool)[0]
 			cases.append({'engine': 'history', 'pool': pool, 'ops': [run, run]})
 			cases.append({'engine': 'history', 'pool': pool, 'ops': [run, {'op': 'edit', 'm': top, 'v': 1, 'dt': 10**9}, run, run]})
 			cases.append({'engine': 'history', 'pool': pool, 'ops': [run, {'op': 'lose', 'pick': 0.5, 'cls': 'tree'}, run, {'op': 'touch', 'm': leaf, 'dt': 10**9}, run]})
